@@ -26,6 +26,8 @@ RULE = ("Hypothesis: abstract triple sets (IRI/bnode subjects, IRI/bnode/literal
 ASSUMPTIONS = ["rdflib 6.0.2 Turtle parser as second opinion on every generated document", "5 s alarm + line-event bound for non-termination"]
 BUDGET = {"quick": {"examples": 12000, "wall": 240}, "thorough": {"examples": 1200000, "wall": 5400}}
 EXHAUSTIVE = {"quick": False, "thorough": False}
+# coverage-guided supplement (vf/fuzz.py): libFuzzer runs per shard, 16 shards
+FUZZ = {"quick": {"runs": 6000, "wall": 120}, "thorough": {"runs": 100000, "wall": 3000}}
 FLOORS = {"nontrivial": 0.4, "linebreak-in-statement": 0.3, "comment": 0.1, "special-literal": 0.15}
 
 from vf.sut import shexer  # noqa
@@ -34,9 +36,11 @@ from shexer.io.graph.yielder.big_ttl_triples_yielder import BigTtlTriplesYielder
 PREFIXES = [("ex", "http://ex.org/"), ("ns", "http://ex.org/ns/"), ("xsd", XSD), ("x", XSD), ("dtp", "http://ex.org/dt/"),
             ("rdf", RDF), ("", "http://empty.org/")]
 BASE = "http://base.org/b/"
+BASES = [None, BASE, "https://sec.org/b/"]       # case["base"]: False/0 no @base, True/1 http base, 2 https base
 IRIS = ["http://ex.org/s1", "http://ex.org/s2", "http://ex.org/ns/o1", "http://empty.org/e1", BASE + "rel1", BASE + "rel2",
         "http://other.org/v#frag", "http://ex.org/C", "http://ex.org/ns/D", "http://ex.org/a.b", "http://ex.org/a-b_1",
-        "http://ex.org/ns/x.y-z", "http://ex.org/caf\u00e9", "http://ex.org/ns/s1", "http://empty.org/s1", "http://ex.org/o1"]
+        "http://ex.org/ns/x.y-z", "http://ex.org/caf\u00e9", "http://ex.org/ns/s1", "http://empty.org/s1", "http://ex.org/o1",
+        "https://sec.org/b/rel3", "https://data.example/d1", "urn:x:y1", "httpx://odd.org/z"]
 PREDS = ["http://ex.org/p1", "http://ex.org/ns/p2", RDF_TYPE, BASE + "relp", "http://other.org/v#q",
          "http://ex.org/ns/p1", "http://empty.org/p1", "http://ex.org/p2"]      # same local names in several namespaces
 BNODES = ["_:b1", "_:b2", "_:x_1"]
@@ -72,7 +76,7 @@ def render_iri(iri, ch, declared, use_base, position):
             loc = iri[len(ns):]
             if loc and all(c.isalnum() or c in "_-." for c in loc) and loc[0] not in "-." and loc[-1] != ".":
                 forms.append("pref:" + p)
-    if use_base and iri.startswith(BASE):
+    if use_base and iri.startswith(use_base):
         forms.append("rel")
     if position == "p" and iri == RDF_TYPE:
         forms += ["a", "a"]
@@ -80,7 +84,7 @@ def render_iri(iri, ch, declared, use_base, position):
     if f == "abs":
         return "<%s>" % iri
     if f == "rel":
-        return "<%s>" % iri[len(BASE):]
+        return "<%s>" % iri[len(use_base):]
     if f == "a":
         return "a"
     p = f[5:]
@@ -116,7 +120,7 @@ def build(case):
     gr = Chooser(case.get("group"))
     triples = case["triples"]
     labels = set()
-    use_base = bool(case.get("base"))
+    use_base = BASES[int(case.get("base") or 0)]       # None or the base IRI
     needed = set()
     for s, p, o in triples:
         if o[0] == "lit" and DTYPES[o[2]][2]:
@@ -134,7 +138,7 @@ def build(case):
             declared[p] = ns
     rebind = Chooser(case.get("rebind"))
     if use_base:
-        header.append("@base <%s> ." % BASE)
+        header.append("@base <%s> ." % use_base)
     # grouping: consecutive triples with the same subject (and predicate) may share it
     tokens = []      # list of token strings; statements end with "."
     expected = []
@@ -375,7 +379,7 @@ def cases(draw):
             triples.append([list(s), p, o])
     ints = st.lists(st.integers(0, 41), min_size=1, max_size=24)
     case = {"triples": triples, "forms": draw(ints), "seps": draw(ints), "comments": draw(ints), "group": draw(ints),
-            "base": draw(st.booleans()), "prefix_mask": draw(st.integers(0, 255))}
+            "base": draw(st.sampled_from([False, True, 2])), "prefix_mask": draw(st.integers(0, 255))}
     if draw(st.integers(0, 3)) == 0:
         case["rebind"] = draw(ints)
     return case
